@@ -537,6 +537,13 @@ func (bva *BaseLockup) checkUnbondingEntriesMature(ctx context.Context) error {
 
 	currentTime := bva.headerService.HeaderInfo(ctx).Time
 
+	// unbond entries are recorded in the staking bond denom (the share-class response),
+	// the delegated amounts are tracked in the lockup's own denom; both count 1:1
+	trackDenom, err := getStakingDenom(ctx)
+	if err != nil {
+		return err
+	}
+
 	removeKeys := []string{}
 	err = bva.UnbondEntries.Walk(ctx, nil, func(key string, value lockuptypes.UnbondingEntries) (stop bool, err error) {
 		for i := 0; i < len(value.Entries); i++ {
@@ -565,7 +572,7 @@ func (bva *BaseLockup) checkUnbondingEntriesMature(ctx context.Context) error {
 
 			// if not found or ubd delegation is empty then assume ubd entry is being handled
 			if !found {
-				err = bva.TrackUndelegation(ctx, sdk.NewCoins(entry.Amount))
+				err = bva.TrackUndelegation(ctx, sdk.NewCoins(sdk.NewCoin(trackDenom, entry.Amount.Amount)))
 				if err != nil {
 					return true, err
 				}
